@@ -17,6 +17,7 @@ import (
 	"os/exec"
 	"path/filepath"
 	"runtime"
+	"strconv"
 	"strings"
 	"time"
 
@@ -1035,6 +1036,12 @@ func init() {
 			if err := json.Unmarshal(raw, &c); err != nil {
 				return err
 			}
+			if c.Wrap == "grid" {
+				if err := refusalGrid(rep, s); err != nil {
+					return err
+				}
+				continue
+			}
 			wrap := map[string][2]string{"or": {`["or", [`, `]]`}, "and": {`["and", [`, `]]`}, "all": {`["all", ".l", `, `]`}, "any": {`["any", ".l", `, `]`}, "not": {`["not", ["not", `, `]]`}}[c.Wrap]
 			open, close := wrap[0], wrap[1]
 			js := `[["not", ` + strings.Repeat(open, c.Depth) + `["==", ".x", 1]` + strings.Repeat(close, c.Depth) + `]]`
@@ -1097,4 +1104,130 @@ func init() {
 		}
 		return nil
 	}
+}
+
+// refusalGrid: every statement form over selectors that reach before the start / past the end of what the data holds, against
+// data whose collections are empty, short, missing or of another kind: the matcher answers (never crashes), a failed match
+// names the statement that failed, and the verifier turns it into an error.
+func refusalGrid(rep *Report, s *principal) error {
+	sels := []string{".", ".l", ".l[0]", ".l[-1]", ".l[-3]", ".l[5]", ".l[-1]?", ".l[-3]?", ".b[-1]", ".b[-9]?", ".b[0]", ".l[0][-5]?", ".l[1:]", ".l[-9:9]",
+		".m.x", ".m?.x", ".s[-4:]", ".s[3:2]", ".l[]", ".m[]", ".q?", ".q"}
+	forms := func(sel string) []string {
+		q := strconv.Quote(sel)
+		return []string{
+			`["==", ` + q + `, 1]`, `[">", ` + q + `, 0]`, `["like", ` + q + `, "a*"]`,
+			`["all", ` + q + `, ["==", ".", 1]]`, `["any", ` + q + `, ["==", ".", 1]]`,
+			`["not", ["==", ` + q + `, 1]]`, `["not", ["any", ` + q + `, [">", ".", 0]]]`,
+			`["and", [["any", ` + q + `, ["==", ".", 1]], ["==", ".k?", 1]]]`,
+			`["or", [["any", ` + q + `, ["==", ".", 1]], ["all", ` + q + `, ["<", ".", 0]]]]`,
+			`["all", ".l", ["any", ` + q + `, ["==", ".", 1]]]`,
+		}
+	}
+	datas := []string{
+		`{"l": [], "b": {"/": {"bytes": ""}}, "s": "", "m": {}}`,
+		`{"l": [1], "b": {"/": {"bytes": "YQ"}}, "s": "a", "m": {"x": 1}}`,
+		`{"l": [[], [1, 2]], "b": {"/": {"bytes": "YWJj"}}, "s": "abcdef", "m": {"x": []}}`,
+		`{}`,
+		`{"l": null, "b": null, "s": null, "m": null}`,
+		`{"l": "text", "b": 7, "s": [1], "m": [[]]}`,
+	}
+	var dnodes []ipld.Node
+	for _, d := range datas {
+		n, err := ipld.Decode([]byte(d), dagjson.Decode)
+		if err != nil {
+			return fmt.Errorf("refusal grid: data %s: %w", d, err)
+		}
+		dnodes = append(dnodes, n)
+	}
+	type outcome struct {
+		ok   bool
+		leaf policy.Statement
+		err  string
+	}
+	match := func(p policy.Policy, n ipld.Node) (o outcome) {
+		defer func() {
+			if x := recover(); x != nil {
+				o.err = fmt.Sprintf("panic: %v", x)
+			}
+		}()
+		o.ok, o.leaf = p.Match(n)
+		if o.leaf != nil {
+			_ = o.leaf.String()
+			_ = o.leaf.Kind()
+		}
+		return o
+	}
+	for _, sel := range sels {
+		for _, js := range forms(sel) {
+			pol, err := policy.FromDagJson("[" + js + "]")
+			if err != nil {
+				return fmt.Errorf("refusal grid: %s: %w", js, err)
+			}
+			d, err := delegation.Root(s.id, s.id, command.Command("/a"), pol)
+			if err != nil {
+				return err
+			}
+			sealed, id, err := d.ToSealed(s.priv)
+			if err != nil {
+				return err
+			}
+			dec, _, err := delegation.FromSealed(sealed)
+			if err != nil {
+				return err
+			}
+			for di, dn := range dnodes {
+				rep.Evaluations++
+				cs := map[string]any{"statement": js, "data": datas[di]}
+				o := match(dec.Policy(), dn)
+				if o.err != "" {
+					rep.violation(cs, "true or false", o.err, "Policy.Match crashed")
+					continue
+				}
+				if !o.ok {
+					rep.nontrivial(js + datas[di])
+				}
+				if !o.ok && o.leaf == nil {
+					rep.violation(cs, "the statement that failed", "nil", "Policy.Match answers false without naming the failing statement (its callers print it)")
+				}
+				a := args.New()
+				for it := dn.MapIterator(); !it.Done(); {
+					k, v, err := it.Next()
+					if err != nil {
+						return err
+					}
+					ks, _ := k.AsString()
+					if v.IsNull() {
+						continue // (a null argument cannot be sealed: finding NullTopLevelValue of C07; the verifier is not the point here)
+					}
+					if err := a.Add(ks, v); err != nil {
+						return fmt.Errorf("refusal grid: argument %s: %w", ks, err)
+					}
+				}
+				inv, err := invocation.New(s.id, s.id, command.Command("/a"), []cid.Cid{id}, invocation.WithArguments(a))
+				if err != nil {
+					return err
+				}
+				an, err := a.ToIPLD()
+				if err != nil {
+					return err
+				}
+				want := match(dec.Policy(), an)
+				verr := func() (err error) {
+					defer func() {
+						if x := recover(); x != nil {
+							err = fmt.Errorf("panic: %v", x)
+						}
+					}()
+					return inv.ExecutionAllowed(mapLoader{id: dec})
+				}()
+				switch {
+				case verr != nil && strings.HasPrefix(verr.Error(), "panic"):
+					rep.violation(cs, "allowed or refused", verr.Error(), "ExecutionAllowed crashed on a policy / argument pair")
+				case want.err == "" && want.ok != (verr == nil):
+					rep.violation(cs, fmt.Sprintf("Policy.Match: %v", want.ok), fmt.Sprint("ExecutionAllowed: ", verr), "the verifier and the matcher disagree")
+				}
+			}
+		}
+	}
+	return nil
 }
